@@ -49,6 +49,10 @@ impl Interval {
         }
     }
 
+    pub const fn from_md_ms(months: i32, days: i32, ms: i32) -> Self {
+        Interval { months, days, ms }
+    }
+
     pub const fn from_secs(seconds: i32) -> Self {
         Interval {
             months: 0,
@@ -83,6 +87,10 @@ impl Interval {
 
     pub const fn num_months(&self) -> i32 {
         self.months
+    }
+
+    pub const fn num_ms(&self) -> i32 {
+        self.ms
     }
 
     pub const fn is_zero(&self) -> bool {
